@@ -72,6 +72,11 @@ func (env *Env) AddFunc(pkgPath, funcName string, f *Func) {
 	env.addFunc(funcKey{qualifier: pkgPath, name: funcName}, f)
 }
 
+// ForgetFunc removes the `$pkgPath.$funcName` binding (already compiled code keeps its function).
+func (env *Env) ForgetFunc(pkgPath, funcName string) {
+	delete(env.nameToFuncID, funcKey{qualifier: pkgPath, name: funcName})
+}
+
 // GetFunc finds previously bound function searching for the `$pkgPath.$funcName` symbol.
 func (env *Env) GetFunc(pkgPath, funcName string) *Func {
 	id, ok := env.nameToFuncID[funcKey{qualifier: pkgPath, name: funcName}]
